@@ -98,6 +98,34 @@ class Lock:
         self.f.close()
 
 
+_TREE_LOCK = None
+
+
+def hold_tree():
+    """Generated*.v files, harness binaries and the evidence are shared by all
+    checks; checks of DIFFERENT trees (VERIF_REPO, used to try a change of the
+    library in a scratch worktree) must therefore not overlap, while checks of the
+    same tree may run in parallel.  Shared lock while the recorded tree is ours,
+    exclusive lock to change it."""
+    global _TREE_LOCK
+    os.makedirs(BUILD, exist_ok=True)
+    path = os.path.join(BUILD, ".tree.lock")
+    f = open(path, "a+")
+    while True:
+        fcntl.flock(f, fcntl.LOCK_SH)
+        f.seek(0)
+        if f.read().strip() == REPO:
+            break
+        fcntl.flock(f, fcntl.LOCK_UN)
+        fcntl.flock(f, fcntl.LOCK_EX)
+        f.seek(0)
+        f.truncate()
+        f.write(REPO)
+        f.flush()
+        fcntl.flock(f, fcntl.LOCK_UN)
+    _TREE_LOCK = f   # held until the process exits
+
+
 def sha_files(paths, extra=""):
     h = hashlib.sha256()
     h.update(extra.encode())
